@@ -31,9 +31,16 @@ def confirm(src, pid, name=None):
         res['demo_passes_without_patch'] = rc0 == 0
         res['ran'].append(f'PYTHONPATH=<scratch worktree> {PY} demo.py (unpatched) -> exit {rc0}')
         rc, o = sh(['git', '-C', wt, 'apply', os.path.join(src, 'patch.diff')])
+        rebased = None
         if rc != 0:
-            res['error'] = 'patch does not apply: ' + o[-300:]
-            return res
+            # the patch was written against an earlier commit of /repo (a later `fix:` commit touched the same file): 3-way merge
+            rc, o = sh(['git', '-C', wt, 'apply', '--3way', os.path.join(src, 'patch.diff')])
+            if rc != 0:
+                res['error'] = 'patch does not apply: ' + o[-300:]
+                return res
+            rc, rebased = sh(['git', '-C', wt, 'diff', 'HEAD'])
+            sh(['git', '-C', wt, 'reset', '-q'])
+            res['ran'].append('patch rebased onto the current HEAD of /repo with git apply --3way')
         rc1, o1 = sh([PY, demo], cwd=wt, env=env, timeout=1200)
         res['demo_fails_with_patch'] = rc1 != 0
         res['demo_output_tail'] = o1[-400:]
@@ -48,7 +55,10 @@ def confirm(src, pid, name=None):
         if ok:
             dst = os.path.join(SEEDED, name)
             os.makedirs(dst, exist_ok=True)
-            shutil.copy(os.path.join(src, 'patch.diff'), dst)
+            if rebased:
+                open(os.path.join(dst, 'patch.diff'), 'w').write(rebased)
+            else:
+                shutil.copy(os.path.join(src, 'patch.diff'), dst)
             shutil.copy(demo, dst)
             meta = {}
             mp = os.path.join(src, 'meta.json')
